@@ -134,12 +134,12 @@ func GenC07(seed, index uint64) *Workload {
 	for i := 0; i < nexpr; i++ {
 		w.Exprs = append(w.Exprs, specOf(GenExpr(r.Fork(100+uint64(i)), bias)))
 	}
-	if r.P(1, 120) {
-		// big data: one shared big document, expressions over its long arrays
-		w.Docs = []string{GenBigDoc(r.Fork(7), "T0")}
-		ndocs = 1
+	if r.P(1, 60) {
+		// big data: shared big documents, expressions over their long arrays
+		w.Docs = []string{GenBigDoc(r.Fork(7), "T0"), GenBigDoc(r.Fork(8), "T1")}
+		ndocs = 2
 		w.Exprs = nil
-		nexpr = 1 + r.Intn(2)
+		nexpr = 1 + r.Intn(3)
 		for i := 0; i < nexpr; i++ {
 			w.Exprs = append(w.Exprs, specOf(GenBigExpr(r.Fork(300+uint64(i)))))
 		}
